@@ -16,11 +16,11 @@ def dispatch(pid, tier, seed, replay):
         rc = props_more.run_srv(pid, tier, seed, replay)
         log("RESULT property=%s tier=%s exit=%d" % (pid, tier, rc))
         return rc
-    if pid in ("C14", "C15", "C05", "C01", "C08", "C19") and replay and json.load(open(replay)).get("spec") == "MemcLin":
+    if pid in ("C14", "C15", "C05", "C01", "C02", "C06", "C07", "C08", "C19") and replay and json.load(open(replay)).get("spec") == "MemcLin":
         rc = props_more.run_conc(pid, tier, seed, replay)
     elif pid in SEQ:
         rc = props_seq.run(pid, tier, seed, replay, extra=(props_more.conc_eviction_extra if pid in ("C14", "C15") else props_more.conc_expiry_extra if pid == "C05"
-                                                           else props_more.conc_extra if pid in ("C01", "C08", "C19") else None))
+                                                           else props_more.conc_extra if pid in ("C01", "C02", "C06", "C07", "C08", "C19") else None))
     elif pid in WIRE:
         rc = props_more.run_wire(pid, tier, seed, replay)
     elif pid in SRV:
